@@ -108,6 +108,22 @@ fn templates() -> Vec<Template> {
             ASSERT (?a, "prefers", ?n) { by: ?a, mode: "stated", confidence: 0.7, at: "2026-03-02T00:00:00Z" }
             ASSERT ?second (?a, "prefers", ?n) { by: ?a, mode: "observed", confidence: 0.4, at: "2026-03-03T00:00:00Z" }
           }"#),
+        // --- one tuple under several spellings of one predicate (local name,
+        //     exact symbol, Schema Lock alias `fond_of`)
+        t("ensure-exact-symbol", "same-tuple-two-spellings", System,
+          r#"ENSURE PROPOSITION ?p (:a_ref, "kip://profiles/cognitive-memory@2.0.0/prefers", :d_ref)"#),
+        t("ensure-alias", "same-tuple-two-spellings", System,
+          r#"ENSURE PROPOSITION ?p (:a_ref, "fond_of", :d_ref)"#),
+        t("ensure-three-spellings", "same-tuple-two-spellings", System,
+          r#"MUTATE {
+            CREATE CONCEPT ?n { TYPE "Preference" NAME "Light" }
+            UPSERT CONCEPT ?a { MATCH {type: "Person", key: "a"} SET FIELDS {name: "Ann"} }
+            ENSURE PROPOSITION ?p1 (?a, "prefers", ?n)
+            ENSURE PROPOSITION ?p2 (?a, "kip://profiles/cognitive-memory@2.0.0/prefers", ?n)
+            ENSURE PROPOSITION ?p3 (?a, "fond_of", ?n)
+          }"#),
+        t("assert-exact-symbol", "same-tuple-two-spellings", System,
+          r#"ASSERT (:a_ref, "kip://profiles/cognitive-memory@2.0.0/prefers", :d_ref) { by: :a_ref, mode: "observed", confidence: 0.5, at: "2026-03-04T00:00:00Z" }"#),
         t("ensure-twice-params", "ensure-same-new-tuple-twice", System,
           r#"MUTATE {
             ENSURE PROPOSITION ?p1 (:b_ref, "prefers", :d_ref)
